@@ -3,15 +3,16 @@
 markdown table (stdout)"""
 import re, json, glob, os
 rows = {}
-files = sorted(glob.glob('/root/scratch/lane_a?.out')) + sorted(glob.glob('/root/scratch/final_*.out'))
+files = sorted(glob.glob('/root/scratch/lane_a?.out')) + sorted(glob.glob('/root/scratch/final_*.out')) + sorted(glob.glob('/root/scratch/r2lane_a?.out')) + sorted(glob.glob('/root/scratch/r2final_*.out'))
 for f in files:
     for l in open(f):
-        m = re.match(r"/root/mutants/(C\d\d)/(m\d) (C\d\d) exit=(\d+) (\d+)s ::\s*(.*)", l.strip())
+        m = re.match(r"/root/mutants(2?)/(C\d\d)/(m\d) (C\d\d) exit=(\d+) (\d+)s ::\s*(.*)", l.strip())
         if not m: continue
-        mid = m.group(1) + '-' + m.group(2)
+        mid = m.group(2) + ('-r2' if m.group(1) else '-') + m.group(3)
+        m = re.match(r"()(\S+) (C\d\d) exit=(\d+) (\d+)s ::\s*(.*)", l.strip())
         viol = m.group(6)
         h = re.search(r"violated: (\S+) :: (.*?)(?: \(release|$)", viol)
-        rows.setdefault(mid, []).append({'check': m.group(3), 'tier': 'quick', 'exit': int(m.group(4)), 'seconds': int(m.group(5)),
+        rows.setdefault(mid, []).append({'check': m.group(3), 'tier': ('thorough' if 'final_c20' in f else 'quick'), 'exit': int(m.group(4)), 'seconds': int(m.group(5)),
                                          'harness': h.group(1) if h else None, 'failed': (h.group(2)[:160] if h else None)})
 det = {}
 for mid, rs in rows.items():
